@@ -117,7 +117,8 @@ def eval_case(case):
     b = seams.bound()
     return Res(trans=len(items) + 1, nontrivial=nontrivial, outcome=out, viols=viols,
                capped=not complete,
-               extra={'seam_horizon_bound': int(bool(b['horizon'])), 'seam_budget_bound': int(bool(b['period_budget']))},
+               extra=dict({'seam_horizon_bound': int(bool(b['horizon'])), 'seam_budget_bound': int(bool(b['period_budget']))},
+                          **({'capped_%s' % rules.FREQNAMES[freq]: 1} if not complete else {})),
                sample=({'rule': rules.describe(case), 'first': list(exp[:3]), 'n': len(exp)}
                        if len(case) == 4 and 'byweekno' in case and case['freq'] == 0 else None))
 
